@@ -18,6 +18,8 @@ pub mod internal;
 pub mod lazy_lock;
 pub mod once;
 pub mod spin_lock;
+#[cfg(iceoryx2_verif)]
+pub mod verif;
 
 pub use iceoryx2_pal_concurrency_sync::WaitAction;
 pub use iceoryx2_pal_concurrency_sync::WaitResult;
